@@ -2,6 +2,7 @@
   C08 — Cached answers age correctly and expire on time.
   Model: MosVerif/Model/Ttl.lean, helper lemmas: MosVerif/Lemmas/Ttl.lean.
 -/
+import MosVerif.Lemmas.TranslatedC08
 import MosVerif.Lemmas.Ttl
 import MosVerif.Lemmas.TtlHist
 import MosVerif.Lemmas.TtlSpec
